@@ -702,6 +702,30 @@ def rule_k12(repo):
                           'the primitive rule that relies on this test accepts a term in which the offending variable sits in the position that is skipped')
 
 
+def rule_k13(repo):
+    """abstraction and forall_intr test their side condition with occurs_var, which distinguishes a variable
+    from the schematic variable of the same name.  abstract_over, which then binds the variable, must make
+    the same distinction: if abstracting over x also binds ?x, a ?x that is still free in a hypothesis is
+    generalised (assume ?x, forall_intr x gives ?x |- !x. x)."""
+    from ..kinds import infeasible_edges
+    res = RuleResult('C01.K13', 'abstract_over binds only leaves of the same kind as the variable it abstracts over', floor=2)
+    f = repo.func(TERM, 'Term.abstract_over')
+    rec = need(f.nested.get('rec'), 'Term.abstract_over: nested rec not found')
+    cfg = cfg_of(rec.node)
+    leaf, tvar = rec.params()[0], f.params()[1]
+    binds = [r for r in cfg.return_nodes() if isinstance(r.ast.value, ast.Call) and call_name(r.ast.value) == 'Bound']
+    need(binds, 'Term.abstract_over.rec: no `return Bound(n)`')
+    for k_leaf, k_t in (('svar', 'var'), ('var', 'svar')):
+        skip = infeasible_edges(cfg, lambda e: is_name(e, leaf), k_leaf) | infeasible_edges(cfg, lambda e: is_name(e, tvar), k_t)
+        reach = cfg.reach_from(cfg.entry, skip_edges=skip)
+        hit = [r for r in binds if r.id in reach]
+        res.add('%s :: Term.abstract_over :: leaf(%s) vs variable(%s)' % (TERM, k_leaf, k_t), not hit,
+                'a leaf of kind %s is never bound when abstracting over a %s' % (k_leaf, k_t) if not hit else
+                'when abstracting over a %s, a %s leaf of the same name reaches `return Bound(n)` (line %d): the side condition of '
+                'abstraction / forall_intr (occurs_var) tells the two apart, the binding does not' % (k_t, k_leaf, hit[0].lineno), rec.loc)
+    return res
+
+
 def rules(repo):
     return [rule_k1(repo), rule_k2(repo), rule_k3(repo), rule_k4(repo), rule_k5(repo), rule_k6(repo),
-            rule_k8(repo), rule_k9(repo), rule_k10(repo), rule_k11(repo), rule_k12(repo)]
+            rule_k8(repo), rule_k9(repo), rule_k10(repo), rule_k11(repo), rule_k12(repo), rule_k13(repo)]
